@@ -12,8 +12,8 @@ KINDS = [k for k in KIND_SIZE if k != 'nest']   # 'nest' is only compiled for a 
 NEST_N = [4, 8, 9, 33, 1024]
 MAPS = ['btree', 'vec', 'maxvec']
 SMALL_N = [1, 2, 3, 4, 5, 7, 8, 9, 16, 17, 32, 33]
-BIG = {'u8': [1024, 2 ** 40, 64, 100, 256], 'u16': [64, 100], 'u64': [1024, 2 ** 40],
-       'u256': [1024, 2 ** 40], 'h256': [1024, 2 ** 40], 'var': [1024, 2 ** 40]}
+BIG = {'u8': [1024, 2 ** 40, 64, 100, 256], 'u16': [64, 100], 'u64': [1024, 2 ** 40, 2 ** 50],
+       'u256': [1024, 2 ** 40], 'h256': [1024, 2 ** 40, 2 ** 48], 'var': [1024, 2 ** 40]}
 HUGE = [('u64', 2 ** 63), ('h256', 2 ** 63), ('u64', 2 ** 60)]
 
 
@@ -60,7 +60,7 @@ def val(rng, kind, prev=None, pzero=0.4):
             return hexs(bytes(8 * rng.choice([0, 1, 4, 5, 16])))
         if prev is not None and r < pzero + 0.15:
             return prev
-        n = rng.choice([0, 1, 3, 4, 5, 8, 9, 16])
+        n = rng.choice([0, 1, 3, 4, 5, 8, 9, 16, 40])
         return hexs(bytes(rng.choice([0, 1, 255, rng.randrange(256)]) for _ in range(8 * n)))
     if kind == 'var':
         if r < pzero:
